@@ -16,7 +16,7 @@ from harness import absval, core, repo
 
 EMB = ['bare', 'left', 'right', 'neg', 'pct', 'sum', 'round', 'mul']
 ENVS = [(a, b, c) for a in (False, True) for b in (False, True) for c in (False, True)]
-CONSTS = {(23, 0): 1, (23, 1): 2, (22, 0): '=MATCH(99,X1:X2,0)', (20, 0): 'some text'}          # W1 = #N/A (MATCH miss over X1:X2); Y1 stays blank
+CONSTS = {(23, 0): 1, (23, 1): 2, (22, 0): '=MATCH(99,X1:X2,0)', (20, 0): 'some text', (19, 0): '=1/Y1', (19, 0): '=1/Y1'}          # W1 = #N/A (MATCH miss over X1:X2); Y1 stays blank
 
 
 def text(a):
@@ -27,6 +27,8 @@ def text(a):
         return {1: 'C1', 2: 'C2', 3: 'D1>E1'}[a['i']]
     if t == 'fail':
         return '1/Y1'
+    if t == 'failref':
+        return 'T1'
     if t == 'na':
         return 'W1'
     if t == 'blank':
@@ -176,7 +178,7 @@ def public_path(run, recs):
     rng = random.Random(run.seed + 13)
     sample = rng.sample(recs, min(len(recs), 40 if run.quick else 300))
     env = (True, False, True)
-    cells = {(23, 0): 1, (23, 1): 2, (22, 0): '=MATCH(99,X1:X2,0)', (20, 0): 'some text', (2, 0): True, (2, 1): 0, (3, 0): 3, (4, 0): 2}
+    cells = {(23, 0): 1, (23, 1): 2, (22, 0): '=MATCH(99,X1:X2,0)', (20, 0): 'some text', (19, 0): '=1/Y1', (2, 0): True, (2, 1): 0, (3, 0): 3, (4, 0): 2}
     for j, rec in enumerate(sample):
         cells[(6, j)] = '=' + text(rec['ast'])
     res = repo.public_path_eval(run.scratch, [('S', cells)], [(0, 6, j) for j in range(len(sample))], tag='c13pp')
@@ -193,7 +195,7 @@ def public_path(run, recs):
 # ---------------------------------------------------------------- direction B
 def random_ast(rng, d):
     def leaf():
-        return rng.choice([{'t': 'num', 'n': rng.choice([7, 9, 3, 12])}, {'t': 'num', 'n': 7}, {'t': 'fail'}, {'t': 'na'}, {'t': 'blank'}, {'t': 'text'}])
+        return rng.choice([{'t': 'num', 'n': rng.choice([7, 9, 3, 12])}, {'t': 'num', 'n': 7}, {'t': 'fail'}, {'t': 'na'}, {'t': 'blank'}, {'t': 'text'}, {'t': 'failref'}])
 
     def cond():
         return {'t': 'cond', 'i': rng.randint(1, 3)}
@@ -210,7 +212,7 @@ def random_ast(rng, d):
             return {'t': 'ifs', 'ps': [[cond(), node(dd - 1)] for _ in range(rng.randint(1, 3))]}
         return {'t': 'iferror', 'x': node(dd - 1), 'f': node(dd - 1)}
     a = node(d)
-    while a['t'] in ('num', 'fail', 'na', 'blank', 'text'):
+    while a['t'] in ('num', 'fail', 'na', 'blank', 'text', 'failref'):
         a = node(d)
     return a
 
@@ -284,6 +286,26 @@ def trace(run):
     judge_events(run, evs, 'trace')
 
 
+ERRORS = ['#NUM!', '#DIV/0!', '#N/A', '#NAME?', '#NULL!', '#REF!', '#VALUE!']
+
+
+def error_constants(run):
+    """IFERROR returns its fallback when the first argument evaluates to an Excel error VALUE: each of the seven error constants, held by
+    a cell, alone and inside IF / IFS values"""
+    consts = {(0, i): e for i, e in enumerate(ERRORS)}
+    consts[(2, 0)] = True
+    forms, want = [], []
+    for i, e in enumerate(ERRORS):
+        forms += [f'=IFERROR(A{i + 1},5)', f'=IFERROR(IF(C1,A{i + 1},1),5)', f'=IFERROR(IFS(C1,A{i + 1}),5)', f'=IFERROR(IFERROR(A{i + 1},A{i + 1}),5)', f'=IFERROR(7,A{i + 1})']
+        want += [5, 5, 5, 5, 7]
+    res = repo.Probe(forms, consts).eval()
+    for f, w, r in zip(forms, want, res):
+        ok = r[0] == 'val' and r[1] == w
+        run.judge({'in': {'formula': f, 'errors_in': 'A1:A7', 'ast': {'t': 'iferror'}, 'emb': 'errconst'}, 'ideal': w, 'obs': str(r[1]) if r[0] == 'val' else f'raises {type(r[1]).__name__}', 'kind': 'error_constant'},
+                  ok, clause=f'{f} with A1..A7 = {ERRORS}: {r[1]!r}, an error value in the first argument selects the fallback ({w})', part='error_constants')
+        run.traces_validated += 1
+
+
 def check(run):
     run.rule = ('nests of IF/3, IF/2, IFS (1-2 pairs), IFERROR over leaves {7, 9, failing expression, #N/A expression} and 3 condition kinds enumerated by TLC '
                 '(depth <= 1 complete; depth 2 with one nested child), each valued under all 8 truth assignments, bare and embedded (T+1, 1+T, -T, T%, '
@@ -292,11 +314,15 @@ def check(run):
     run.assumptions += ['embedded positions are compared only when the nest yields a number (how an operator treats an error or boolean operand is not this property)',
                         'an evaluation that raises counts as an error value', 'conditions are cells / comparisons; text conditions and error conditions are out of scope']
     gen(run)
+    error_constants(run)
     trace(run)
 
 
 def replay(run, case):
     i = case['in']
+    if case.get('kind') == 'error_constant':
+        error_constants(run)
+        return
     p = repo.Probe([i['formula']], CONSTS, timeout=120)
     r = p.eval(env_overrides(tuple(i['env'])))[0]
     judge_events(run, [{'ast': i['ast'], 'env': i['env'], 'emb': i['emb'], 'obs': obs_of(*r), 'formula': i['formula']}], 'replay')
